@@ -1,0 +1,7 @@
+//go:build !verif
+
+package packet
+
+func verifReceive(*Writer, *Reader, *Packet) func() { return verifNoop }
+
+func verifNoop() {}
